@@ -255,7 +255,8 @@ class Registry:
                     raise Unsupported("default value expression")
                 env[k] = r[0][1]
             elif isinstance(v, tuple) and v and v[0] == "kwdict":
-                raise Unsupported("explicit extra keyword arguments captured by **kwargs")
+                from .values import KwD
+                env[k] = KwD(tuple(v[1].items()), v[2])
         st.env = saved
         ex.opaque_calls.add(f"{info.relpath}:{info.qualname}")
         return self._apply(ex, con, info.qualname, info, env, st)
